@@ -26,7 +26,7 @@ ASSUMPTIONS = ["trusted base: the library's fresh-construction path (checked by 
                "transient states between the public setters of a compound edit are never read"]
 FLOORS = {'quick': {'fresh-compare': 4000, 'shadow': 600, 'copy-independence': 150, 'container-read': 150},
           'thorough': {'fresh-compare': 40000, 'shadow': 6000, 'copy-independence': 1500}}
-MANDATORY_TAGS = ['curve', 'surface', 'volume', 'rational', 'container', 'copy', 'op:reverse', 'op:transpose', 'op:flip', 'op:insert',
+MANDATORY_TAGS = ['kept-sizes', 'kept-sizes:given-to-another-object', 'curve', 'surface', 'volume', 'rational', 'container', 'copy', 'op:reverse', 'op:transpose', 'op:flip', 'op:insert',
                   'op:remove', 'op:refine', 'op:weights', 'op:ctrlpts', 'op:delta', 'op:translate', 'op:degree', 'op:knotvector',
                   'op:container-add', 'op:container-transform', 'op:container-deepcopy', 'read-mutate-read', 'op:container-delta-one-direction']
 TECHNIQUE = ("runtime monitoring: history driver with an online differential oracle (every read of a derived view vs the same read "
@@ -126,13 +126,62 @@ def gen(rng, tier, shard, nshards):
                                        pcls='uniform'))
         yield {'kind': 'history', 'shapes': shapes, 'seed': rng.randrange(1 << 30), 'steps': rng.randint(4, 25),
                'container': rng.random() < 0.5}
+        if i % 3 == 0:
+            pd = rng.choice([1, 2, 2, 3])
+            yield {'kind': 'kept-sizes', 'seed': rng.randrange(1 << 30),
+                   'sd': G.rand_shape(rng, pd, dim=3 if pd > 1 else rng.choice([2, 3]), clamped_only=True, maxextra=3, maxdeg=3, pcls='uniform')}
 
 
 class World(object):
     pass
 
 
+def check_kept_sizes(case, ctx):
+    """small values handed out by getters (cpsize, degree, sample size) are the caller's: a later edit of the object - or of ANOTHER object
+    that was given them - reports new values, it does not rewrite the ones read before"""
+    from geomdl import operations
+    rng = random.Random(case['seed'])
+    sd = case['sd']
+    pdim = sd['pdim']
+    o = G.build(sd)
+    ctx.tag('kept-sizes', {1: 'curve', 2: 'surface', 3: 'volume'}[pdim])
+    ctx.nontriv(True)
+    before = o.cpsize
+    snap = list(before)
+    which = rng.choice(['refine', 'insert', 'other-object'])
+    if which == 'other-object':
+        # a second shape is defined from the first one's values (degree, sizes), then gets its own control points
+        ctx.tag('kept-sizes:given-to-another-object')
+        other = type(o)()
+        other.degree = o.degree
+        other.cpsize = o.cpsize
+        pts = [[c * 2.0 + 1.0 for c in p] for p in o.ctrlpts]
+        digest0 = digest(o)
+        try:
+            other.ctrlpts = pts
+        except Exception:
+            pass
+        ctx.check(digest(o) == digest0 and list(o.cpsize) == snap and G.sizes_of(o) == list(sd['sizes']), 'kept/other-object-edit-leaks',
+                  'a %s defined with sizes read from another one (new.cpsize = old.cpsize) and then given control points: the FIRST object now '
+                  'reports sizes %r (had %r)' % (type(o).__name__, list(o.cpsize), snap), what='copy-independent')
+        return
+    d = rng.randrange(pdim)
+    if which == 'refine':
+        prm = [0] * pdim
+        prm[d] = 1
+        operations.refine_knotvector(o, prm)
+    else:
+        pick = so.pick_insertion(rng, o, d, prefer_knot=0.0)
+        if pick is None:
+            raise Reject()
+        so.call_insert(o, d, pick[0], 1, 'operations')
+    ctx.check(list(before) == snap, 'kept/sizes-rewritten', 'cpsize read before %s (%r) reads %r afterwards - the list handed out was rewritten in '
+              'place (the object itself now has %r)' % (which, snap, list(before), list(o.cpsize)), what='copy-independent')
+
+
 def check(case, ctx):
+    if case.get('kind') == 'kept-sizes':
+        return check_kept_sizes(case, ctx)
     from geomdl import operations, multi
     rng = random.Random(case['seed'])
     sds = case['shapes']
